@@ -62,3 +62,52 @@ package server
 //@   loop 1 invariant preservedStruct(model.CollectionInfo) && preservedArrays(string) && (longNames == nil || freshRef2(longNames))
 //@   loop 1 invariant (rangeindex == 0 - 1 || rangeindex == 0) && len(infos) == 1 && (rangeindex == 0 - 1 ==> !emptyName && len(longNames) == 0 && preservedArrays(model.CollectionInfo) && preservedFields(CDCServerConfig.MaxNameLength) && preservedFields(MetaCDC.config)) && (rangeindex == 0 ==> emptyName == (old(infos[0].Name) == "") && (len(longNames) == 0) == (len(old(infos[0].Name)) <= old(e.config.MaxNameLength)) && (old(infos[0].Name) == "*" ==> old(len(infos[0].Positions)) == 0))
 //@   panics never
+
+// ---- C19: every request gets exactly one JSON answer with a legal code -------------------------------------
+// respCount / lastRespCode: JSON documents written to the http.ResponseWriter and the code of the last one
+//@ ghost var respCount int
+//@ ghost var lastRespCode int
+
+//@ trusted func (*github.com/goccy/go-json.Encoder).Encode
+//@   params recv v
+//@   ensures respCount == old(respCount) + 1 && (isType(v, "*request.CDCResponse") ==> lastRespCode == cast(v, "*request.CDCResponse").Code)
+//@   modifies respCount, lastRespCode
+
+//@ func (*CDCServer).handleError
+//@   props C19
+//@   requires c != nil
+//@   ensures [one-error-document-with-the-given-code] respCount == old(respCount) + 1 && lastRespCode == code
+//@   modifies respCount, lastRespCode, fresh(request.CDCResponse.*)
+//@   panics never
+
+//@ func (*CDCServer).handleRequest
+//@   props C19
+//@   requires c != nil && cdcRequest != nil
+//@   dyncall modifies * except respCount lastRespCode
+//@   ensures [no-response-value-means-one-error-document] result == nil ==> respCount == old(respCount) + 1 && (lastRespCode == 400 || lastRespCode == 500)
+//@   ensures [a-response-value-means-nothing-written-yet] result != nil ==> respCount == old(respCount)
+//@   modifies * except respCount lastRespCode
+
+//@ func (*CDCServer).getCDCHandler$1
+//@   props C19
+//@   requires deref(c) != nil && request != nil && writer != nil
+//@   ensures [exactly-one-json-document] respCount == old(respCount) + 1
+//@   ensures [legal-code] lastRespCode == 200 || lastRespCode == 400 || lastRespCode == 405 || lastRespCode == 500
+//@   ensures [405-iff-not-post] (lastRespCode == 405) == (old(request.Method) != "POST")
+
+// ---- C18: what is logged about a request ---------------------------------------------------------------------
+// lastMarshalled: the value handed to json.Marshal last (its JSON text is what GetRequestInfo returns)
+//@ ghost var lastMarshalled any
+//@ trusted func github.com/goccy/go-json.Marshal
+//@   params v
+//@   ensures lastMarshalled == v
+//@   modifies lastMarshalled
+
+// maskedReq: no credential of a create request is present
+//@ spec maskedReq(r *request.CreateRequest) bool = r.MilvusConnectParam.Password == "" && r.MilvusConnectParam.Token == "" && r.KafkaConnectParam.SASL.Password == "" && r.KafkaConnectParam.SASL.Username == ""
+
+//@ func GetRequestInfo
+//@   props C18 C19
+//@   ensures [create-requests-are-logged-masked] isType(lastMarshalled, "*request.CreateRequest") ==> maskedReq(cast(lastMarshalled, "*request.CreateRequest"))
+//@   ensures [the-callers-request-is-not-modified] isType(request, "*request.CreateRequest") ==> cast(request, "*request.CreateRequest").MilvusConnectParam == old(cast(request, "*request.CreateRequest").MilvusConnectParam)
+//@   modifies lastMarshalled, fresh(request.CreateRequest.*)
